@@ -96,7 +96,11 @@ impl Drop for Final {
         while let Some(child) = stack.pop() {
             // If we hold the last reference, take the child's children before it is dropped,
             // so that its own `drop` has nothing left to recurse into.
+            #[cfg(feature = "verif-hooks")]
+            crate::verif::yield_point();
             if let Some(mut child) = Arc::into_inner(child) {
+                #[cfg(feature = "verif-hooks")]
+                crate::verif::probe(9);
                 push_children(
                     &mut stack,
                     std::mem::replace(&mut child.bound, CompleteBound::Unit),
